@@ -336,6 +336,13 @@ def mon_C07(sc, trace, probes, info):
             # interrupted by its own notification at another time than the trigger time
             if not (trig is not None and t1 > trig):
                 out.append(('until %r was interrupted at %r but its notification fires at %r' % (name, t1, trig), None))
+    out.extend(mon_till(sc, trace, probes, info))
+    return out
+
+
+def mon_till(sc, trace, probes, info):
+    """run(till=T) executes nothing at a virtual time later than T (shared by C07 and C15)"""
+    out = []
     if sc.get('till') is not None and tv(sc['till']) >= tv(sc['start']):
         # (a till date before the start is `time == past`: it never fires and the run goes to quiescence)
         T = tv(sc['till'])
@@ -343,12 +350,8 @@ def mon_C07(sc, trace, probes, info):
             if e[0] > T:
                 out.append(('event %r at time %r after till=%r' % (e, e[0], T), None))
                 break
-        late = [p for p in by(probes, 'act') if p[1] > T]
-        # activations later than T may only be no-ops; any probe event after them is code running late
-        for p in probes:
-            if p[0] in ('log', 'await', 'task_start', 'set_flag', 'set_tracked', 'raise') and \
-                    [x for x in p if isinstance(x, (int, float)) and not isinstance(x, bool)] and False:
-                pass
+        # (activations later than T do happen - stale, revoked or no-op wake-ups - and are not code running late;
+        # user-visible code running late always shows as a trace event)
     return out
 
 
@@ -570,5 +573,5 @@ def mon_C12(sc, trace, probes, info):
     return out
 
 
-MONITORS = {'C12': mon_C12, 'C16': mon_C16, 'C02': mon_C02, 'C01': mon_C01, 'C03': mon_C03, 'C04': mon_C04, 'C05': mon_C05, 'C07': mon_C07, 'C08': mon_C08,
+MONITORS = {'till': mon_till, 'C12': mon_C12, 'C16': mon_C16, 'C02': mon_C02, 'C01': mon_C01, 'C03': mon_C03, 'C04': mon_C04, 'C05': mon_C05, 'C07': mon_C07, 'C08': mon_C08,
             'C09': mon_C09, 'C10': mon_C10}
